@@ -583,6 +583,27 @@ def rule_XA(run: Run) -> RuleResult:
             ok = selfop or any(kd <= set(op_targets(x, "explain")) and _compatible(k, x) for x in xpaths)
             res.add(f"{cls.qualname}:explain:covers keys path{{{','.join(sorted(kd))}}}", ok, f, ln,
                     f"{cls.name}.keys path keying {sorted(kd)} " + ("has" if ok else "has no") + " compatible explain path explaining them all", nec)
+        # a part that keys() keys only under a test of that part (``self.domain is MISSING``): a returning explain() path that
+        # leaves the part out has decided the same test — a fast path that returns before the part's test is reached reports
+        # fewer keys than the keys() path it is compatible with (round 11: `return {self.key}` for scalar values in Option.explain)
+        for c, why in want:
+            if c == "<self>" or why != "keyed" or selfop or "[*]" in c:      # single parts only: members of a collection are chosen by value
+                continue
+            kc = [k for k in kpaths if not any(e.failed for e in k.events) and c in op_targets(k, "keys")]
+            # (an identity test of the part itself — ``is MISSING`` / ``is None`` — not a test of a value computed from it or of its class)
+            guards = {t for k in kc for t in _cond_sig(k) if t.startswith(f"cmp:Is(Child({c}),")}
+            if not kc or not guards or len(kc) == len(kpaths):
+                continue
+            # … and only a part that keys() keys whenever that test allows (every other returning keys() path decided the test):
+            # a part left out for another reason (a default no case reached) is chosen by value, not by its own presence
+            if not all(c in op_targets(k, "keys") or (guards & set(_cond_sig(k))) for k in kpaths if not any(e.failed for e in k.events)):
+                continue
+            early = [x for x in xpaths if c not in op_targets(x, "explain", include_failed=True) and not any(e.failed for e in x.events)
+                     and not (guards & set(_cond_sig(x))) and any(_compatible(k, x) for k in kc)]
+            res.add(f"{cls.qualname}:explain:a path leaving out '{c}' has tested it like keys", not early, f, ln,
+                    f"every returning explain path that leaves out '{c}' decided {sorted(guards)[0][:60]}" if not early else
+                    f"a returning explain path (conditions {[c2[0][:40] for c2 in early[0].conds][:4]}) returns without '{c}' and without the test "
+                    f"{sorted(guards)[0][:60]} under which keys() keys it", nec)
         common = None
         for k in kpaths:
             ks = set(op_targets(k, "keys")) - {"<self>"}
